@@ -94,6 +94,14 @@ impl ResourceId {
     }
 }
 
+#[cfg(message_io_verif)]
+impl ResourceId {
+    /// Verification hook: exposes the private constructor.
+    pub fn verif_new(adapter_id: u8, resource_type: ResourceType, base_value: usize) -> Self {
+        Self::new(adapter_id, resource_type, base_value)
+    }
+}
+
 impl From<usize> for ResourceId {
     fn from(raw: usize) -> Self {
         Self { id: raw }
